@@ -382,6 +382,8 @@ type Fn struct {
 	defCache   map[*ast.Ident]ast.Expr
 	litAssigns map[types.Object]bool
 	matchDepth int
+	nAssign    map[types.Object]int
+	searching  int // >0 while a node-by-node search runs (see matchRoot)
 }
 
 // Name is the type-qualified name, e.g. "internal/allocator.(*Allocator).Assign".
